@@ -1,0 +1,13 @@
+//go:build verif
+
+package pattern
+
+// VerifCompile exposes the regular expression source that compile
+// produces for the patterns (verification hook; build tag verif).
+func VerifCompile(patterns []string, mode Mode) (string, error) {
+	rx, err := compile(patterns, mode)
+	if err != nil {
+		return "", err
+	}
+	return rx.String(), nil
+}
